@@ -57,3 +57,9 @@ import pygal_run_task  # noqa: E402
 # "run_task" over Pipeline.v's alphabet (C07), "run_task_deps" over Deps.v's (C12); monadic backend over PyStm.v
 SPECS["run_task"] = pygal_run_task.SPEC
 SPECS["run_task_deps"] = pygal_run_task.SPEC_DEPS
+
+import pygal_labels_send  # noqa: E402
+
+# the send side of the label path: Context.requeue (taskiq/context.py) and the label loop of
+# AsyncKicker._prepare_message (taskiq/kicker.py), over their own copy of LabelType / prepare_label (C09)
+SPECS["labels_send"] = pygal_labels_send.SPEC
